@@ -48,6 +48,7 @@ type State struct {
 }
 
 type Frame struct {
+	inGo bool // the call site being processed is a go statement
 	callRefs map[string]refBinding // by-reference captured variables of the closure whose contract is being applied
 	vc       *VC
 	fn       *ssa.Function
